@@ -1,0 +1,1082 @@
+//! Verification hook H2: an instrumented drop-in replacement for `parking_lot::RwLock`.
+//!
+//! Only compiled with `--cfg danielt_autosar_data_verif`. Three global modes (see [`verif_lock_mode`]):
+//!  * 0: pass-through, plain delegation to `parking_lot::RwLock`
+//!  * 1: record, every acquisition / failed try / release is appended to a global log; a blocking acquisition that
+//!    would hang on a lock already held by the same thread is turned into a panic
+//!  * 2: schedule, threads registered through [`verif_sched_run`] execute one at a time under a cooperative
+//!    deterministic scheduler; every acquisition and every release is a scheduling point
+#![allow(missing_docs)]
+
+use std::cell::{Cell, RefCell};
+use std::collections::HashMap;
+use std::mem::ManuallyDrop;
+use std::ops::{Deref, DerefMut};
+use std::panic::Location;
+use std::sync::atomic::{AtomicU8, AtomicU64, Ordering};
+use std::sync::{Condvar, Mutex, MutexGuard};
+use std::time::Duration;
+
+// ------------------------------------------------------------------------------------------------
+// public data types
+// ------------------------------------------------------------------------------------------------
+
+/// kind of a lock event
+#[doc(hidden)]
+#[derive(Debug, Clone, Copy, PartialEq, Eq, Hash)]
+pub enum LockEventKind {
+    /// blocking read acquired
+    Read,
+    /// blocking write acquired
+    Write,
+    /// try_read / try_read_for succeeded
+    TryRead,
+    /// try_write / try_write_for succeeded
+    TryWrite,
+    /// any try-acquisition failed
+    TryFail,
+    /// a read guard was dropped
+    ReleaseRead,
+    /// a write guard was dropped
+    ReleaseWrite,
+    /// a blocking acquisition of a lock that the same thread already holds in a conflicting way
+    SelfDeadlock,
+    /// (scheduler traces only) a registered thread starts running
+    Start,
+}
+
+impl LockEventKind {
+    #[doc(hidden)]
+    pub fn name(self) -> &'static str {
+        match self {
+            LockEventKind::Read => "Read",
+            LockEventKind::Write => "Write",
+            LockEventKind::TryRead => "TryRead",
+            LockEventKind::TryWrite => "TryWrite",
+            LockEventKind::TryFail => "TryFail",
+            LockEventKind::ReleaseRead => "ReleaseRead",
+            LockEventKind::ReleaseWrite => "ReleaseWrite",
+            LockEventKind::SelfDeadlock => "SelfDeadlock",
+            LockEventKind::Start => "Start",
+        }
+    }
+}
+
+/// one entry of the lock log / of a scheduler trace
+#[doc(hidden)]
+#[derive(Debug, Clone, PartialEq, Eq)]
+pub struct LockEvent {
+    /// small per-thread number (mode 1: in order of first lock use; mode 2: index of the body)
+    pub thread: u64,
+    /// unique id of the RwLock instance (global counter, starting at 1)
+    pub lock: u64,
+    pub kind: LockEventKind,
+    /// caller location (of the acquisition; a release carries the location of its acquisition)
+    pub file: &'static str,
+    pub line: u32,
+}
+
+/// who holds a lock on which a deadlocked thread waits
+#[doc(hidden)]
+#[derive(Debug, Clone)]
+pub struct LockHolder {
+    pub thread: usize,
+    pub write: bool,
+    pub file: &'static str,
+    pub line: u32,
+}
+
+/// one blocked thread of a deadlock
+#[doc(hidden)]
+#[derive(Debug, Clone)]
+pub struct DeadlockWait {
+    pub thread: usize,
+    pub lock: u64,
+    /// the blocked acquisition is a write
+    pub write: bool,
+    pub file: &'static str,
+    pub line: u32,
+    /// current holders of the lock
+    pub holders: Vec<LockHolder>,
+    /// a read that is only blocked because this thread's blocking write waits on the same lock
+    pub behind_waiting_writer: Option<usize>,
+}
+
+#[doc(hidden)]
+#[derive(Debug, Clone)]
+pub struct DeadlockReport {
+    pub waits: Vec<DeadlockWait>,
+    /// number of trace steps executed when the deadlock was detected
+    pub at_step: usize,
+}
+
+#[doc(hidden)]
+#[derive(Debug, Clone, Default)]
+pub struct SchedOutcome {
+    /// per thread: the body returned (normally or by unwinding)
+    pub finished: Vec<bool>,
+    /// per thread: the body panicked (including deadlock victims and self-deadlocks)
+    pub panicked: Vec<bool>,
+    /// executed schedule: (thread, event), one entry per scheduling decision
+    pub trace: Vec<(usize, LockEvent)>,
+    /// per trace entry: the threads that could have been chosen at that decision; empty for entries that were not
+    /// scheduling decisions and did not consume a schedule entry (releases while unwinding, `SelfDeadlock`)
+    pub enabled: Vec<Vec<usize>>,
+    pub deadlock: Option<DeadlockReport>,
+    /// the scheduler itself made no progress for several seconds (a registered thread blocked outside of its control)
+    pub stuck: bool,
+}
+
+// ------------------------------------------------------------------------------------------------
+// global state
+// ------------------------------------------------------------------------------------------------
+
+static MODE: AtomicU8 = AtomicU8::new(0);
+static NEXT_LOCK_ID: AtomicU64 = AtomicU64::new(1);
+static NEXT_THREAD_NO: AtomicU64 = AtomicU64::new(1);
+static LOG: Mutex<Vec<LockEvent>> = Mutex::new(Vec::new());
+static SCHED: Mutex<Option<Sched>> = Mutex::new(None);
+static SCHED_CV: Condvar = Condvar::new();
+/// serializes calls of verif_sched_run
+static SCHED_RUN: Mutex<()> = Mutex::new(());
+
+thread_local! {
+    static THREAD_NO: Cell<u64> = const { Cell::new(0) };
+    /// index of this thread in the current scheduler run
+    static SCHED_TID: Cell<Option<usize>> = const { Cell::new(None) };
+    /// locks held by this thread (lock id, is_write), maintained in modes 1 and 2
+    static HELD: RefCell<Vec<(u64, bool)>> = const { RefCell::new(Vec::new()) };
+}
+
+fn lock_ignore_poison<T>(m: &'static Mutex<T>) -> MutexGuard<'static, T> {
+    m.lock().unwrap_or_else(|e| e.into_inner())
+}
+
+fn thread_no() -> u64 {
+    THREAD_NO.with(|c| {
+        if c.get() == 0 {
+            c.set(NEXT_THREAD_NO.fetch_add(1, Ordering::Relaxed));
+        }
+        c.get()
+    })
+}
+
+/// switch the global mode: 0 pass-through, 1 record, 2 schedule
+#[doc(hidden)]
+pub fn verif_lock_mode(m: u8) {
+    MODE.store(m, Ordering::SeqCst);
+}
+
+/// take (and clear) the global lock log of mode 1
+#[doc(hidden)]
+pub fn verif_lock_take_log() -> Vec<LockEvent> {
+    std::mem::take(&mut *lock_ignore_poison(&LOG))
+}
+
+/// the id that the next created RwLock will get
+#[doc(hidden)]
+pub fn verif_lock_counter() -> u64 {
+    NEXT_LOCK_ID.load(Ordering::SeqCst)
+}
+
+fn log_event(lock: u64, kind: LockEventKind, loc: &'static Location<'static>) {
+    let ev = LockEvent {
+        thread: thread_no(),
+        lock,
+        kind,
+        file: loc.file(),
+        line: loc.line(),
+    };
+    lock_ignore_poison(&LOG).push(ev);
+}
+
+/// how this thread currently holds the lock: None, Some(false) = read only, Some(true) = write
+fn held_by_me(id: u64) -> Option<bool> {
+    HELD.with(|h| {
+        let h = h.borrow();
+        let mut res = None;
+        for (l, w) in h.iter() {
+            if *l == id {
+                res = Some(res.unwrap_or(false) || *w);
+            }
+        }
+        res
+    })
+}
+
+fn held_push(id: u64, write: bool) {
+    HELD.with(|h| h.borrow_mut().push((id, write)));
+}
+
+fn held_remove(id: u64, write: bool) {
+    HELD.with(|h| {
+        let mut h = h.borrow_mut();
+        if let Some(p) = h.iter().rposition(|x| *x == (id, write)) {
+            h.remove(p);
+        }
+    });
+}
+
+// ------------------------------------------------------------------------------------------------
+// the lock
+// ------------------------------------------------------------------------------------------------
+
+#[doc(hidden)]
+pub struct RwLock<T> {
+    id: u64,
+    inner: parking_lot::RwLock<T>,
+}
+
+#[doc(hidden)]
+pub struct RwLockReadGuard<'a, T> {
+    id: u64,
+    mode: u8,
+    loc: &'static Location<'static>,
+    inner: ManuallyDrop<parking_lot::RwLockReadGuard<'a, T>>,
+}
+
+#[doc(hidden)]
+pub struct RwLockWriteGuard<'a, T> {
+    id: u64,
+    mode: u8,
+    loc: &'static Location<'static>,
+    inner: ManuallyDrop<parking_lot::RwLockWriteGuard<'a, T>>,
+}
+
+impl<T> RwLock<T> {
+    #[doc(hidden)]
+    pub fn new(value: T) -> Self {
+        Self {
+            id: NEXT_LOCK_ID.fetch_add(1, Ordering::SeqCst),
+            inner: parking_lot::RwLock::new(value),
+        }
+    }
+
+    /// unique id of this lock instance
+    #[doc(hidden)]
+    pub fn verif_lock_id(&self) -> u64 {
+        self.id
+    }
+
+    fn effective_mode() -> u8 {
+        let m = MODE.load(Ordering::SeqCst);
+        if m == 2 && SCHED_TID.with(Cell::get).is_none() {
+            // threads that are not under control of the scheduler are not instrumented
+            0
+        } else {
+            m
+        }
+    }
+
+    fn rguard<'a>(
+        &'a self,
+        mode: u8,
+        loc: &'static Location<'static>,
+        g: parking_lot::RwLockReadGuard<'a, T>,
+    ) -> RwLockReadGuard<'a, T> {
+        RwLockReadGuard {
+            id: self.id,
+            mode,
+            loc,
+            inner: ManuallyDrop::new(g),
+        }
+    }
+
+    fn wguard<'a>(
+        &'a self,
+        mode: u8,
+        loc: &'static Location<'static>,
+        g: parking_lot::RwLockWriteGuard<'a, T>,
+    ) -> RwLockWriteGuard<'a, T> {
+        RwLockWriteGuard {
+            id: self.id,
+            mode,
+            loc,
+            inner: ManuallyDrop::new(g),
+        }
+    }
+
+    /// a blocking acquisition that can never be granted because of what this thread itself holds
+    fn check_self_deadlock(&self, mode: u8, write: bool, loc: &'static Location<'static>) {
+        let conflict = match held_by_me(self.id) {
+            Some(true) => true,   // write -> anything
+            Some(false) => write, // read -> write
+            None => false,
+        };
+        if conflict {
+            if mode == 1 {
+                log_event(self.id, LockEventKind::SelfDeadlock, loc);
+            } else {
+                sched_note_self_deadlock(self.id, loc);
+            }
+            panic!(
+                "verif: self-deadlock at {}:{} (blocking {} of lock {} which this thread already holds)",
+                loc.file(),
+                loc.line(),
+                if write { "write" } else { "read" },
+                self.id
+            );
+        }
+    }
+
+    #[doc(hidden)]
+    #[track_caller]
+    pub fn read(&self) -> RwLockReadGuard<'_, T> {
+        let loc = Location::caller();
+        let mode = Self::effective_mode();
+        match mode {
+            0 => self.rguard(0, loc, self.inner.read()),
+            1 => {
+                self.check_self_deadlock(1, false, loc);
+                let g = self.inner.read();
+                log_event(self.id, LockEventKind::Read, loc);
+                held_push(self.id, false);
+                self.rguard(1, loc, g)
+            }
+            _ => {
+                self.check_self_deadlock(2, false, loc);
+                sched_point(Pending::Acquire {
+                    lock: self.id,
+                    write: false,
+                    loc,
+                });
+                // the scheduler granted the lock: nobody holds it in a conflicting way, this cannot block
+                let g = self.inner.read();
+                held_push(self.id, false);
+                self.rguard(2, loc, g)
+            }
+        }
+    }
+
+    #[doc(hidden)]
+    #[track_caller]
+    pub fn write(&self) -> RwLockWriteGuard<'_, T> {
+        let loc = Location::caller();
+        let mode = Self::effective_mode();
+        match mode {
+            0 => self.wguard(0, loc, self.inner.write()),
+            1 => {
+                self.check_self_deadlock(1, true, loc);
+                let g = self.inner.write();
+                log_event(self.id, LockEventKind::Write, loc);
+                held_push(self.id, true);
+                self.wguard(1, loc, g)
+            }
+            _ => {
+                self.check_self_deadlock(2, true, loc);
+                sched_point(Pending::Acquire {
+                    lock: self.id,
+                    write: true,
+                    loc,
+                });
+                let g = self.inner.write();
+                held_push(self.id, true);
+                self.wguard(2, loc, g)
+            }
+        }
+    }
+
+    fn try_read_impl(
+        &self,
+        loc: &'static Location<'static>,
+        timeout: Option<Duration>,
+    ) -> Option<RwLockReadGuard<'_, T>> {
+        let mode = Self::effective_mode();
+        match mode {
+            0 => match timeout {
+                None => self.inner.try_read(),
+                Some(t) => self.inner.try_read_for(t),
+            }
+            .map(|g| self.rguard(0, loc, g)),
+            1 => {
+                let g = match timeout {
+                    None => self.inner.try_read(),
+                    Some(t) => self.inner.try_read_for(t),
+                };
+                match g {
+                    Some(g) => {
+                        log_event(self.id, LockEventKind::TryRead, loc);
+                        held_push(self.id, false);
+                        Some(self.rguard(1, loc, g))
+                    }
+                    None => {
+                        log_event(self.id, LockEventKind::TryFail, loc);
+                        None
+                    }
+                }
+            }
+            _ => {
+                // the timeout is treated as elapsed: the model decides immediately
+                if sched_point(Pending::Try {
+                    lock: self.id,
+                    write: false,
+                    loc,
+                }) {
+                    let g = self.inner.try_read().expect("verif: lock model out of sync (try_read)");
+                    held_push(self.id, false);
+                    Some(self.rguard(2, loc, g))
+                } else {
+                    None
+                }
+            }
+        }
+    }
+
+    fn try_write_impl(
+        &self,
+        loc: &'static Location<'static>,
+        timeout: Option<Duration>,
+    ) -> Option<RwLockWriteGuard<'_, T>> {
+        let mode = Self::effective_mode();
+        match mode {
+            0 => match timeout {
+                None => self.inner.try_write(),
+                Some(t) => self.inner.try_write_for(t),
+            }
+            .map(|g| self.wguard(0, loc, g)),
+            1 => {
+                let g = match timeout {
+                    None => self.inner.try_write(),
+                    Some(t) => self.inner.try_write_for(t),
+                };
+                match g {
+                    Some(g) => {
+                        log_event(self.id, LockEventKind::TryWrite, loc);
+                        held_push(self.id, true);
+                        Some(self.wguard(1, loc, g))
+                    }
+                    None => {
+                        log_event(self.id, LockEventKind::TryFail, loc);
+                        None
+                    }
+                }
+            }
+            _ => {
+                if sched_point(Pending::Try {
+                    lock: self.id,
+                    write: true,
+                    loc,
+                }) {
+                    let g = self
+                        .inner
+                        .try_write()
+                        .expect("verif: lock model out of sync (try_write)");
+                    held_push(self.id, true);
+                    Some(self.wguard(2, loc, g))
+                } else {
+                    None
+                }
+            }
+        }
+    }
+
+    #[doc(hidden)]
+    #[track_caller]
+    pub fn try_read(&self) -> Option<RwLockReadGuard<'_, T>> {
+        self.try_read_impl(Location::caller(), None)
+    }
+
+    #[doc(hidden)]
+    #[track_caller]
+    pub fn try_write(&self) -> Option<RwLockWriteGuard<'_, T>> {
+        self.try_write_impl(Location::caller(), None)
+    }
+
+    #[doc(hidden)]
+    #[track_caller]
+    pub fn try_read_for(&self, timeout: Duration) -> Option<RwLockReadGuard<'_, T>> {
+        self.try_read_impl(Location::caller(), Some(timeout))
+    }
+
+    #[doc(hidden)]
+    #[track_caller]
+    pub fn try_write_for(&self, timeout: Duration) -> Option<RwLockWriteGuard<'_, T>> {
+        self.try_write_impl(Location::caller(), Some(timeout))
+    }
+}
+
+impl<T> Deref for RwLockReadGuard<'_, T> {
+    type Target = T;
+    fn deref(&self) -> &T {
+        &self.inner
+    }
+}
+
+impl<T> Deref for RwLockWriteGuard<'_, T> {
+    type Target = T;
+    fn deref(&self) -> &T {
+        &self.inner
+    }
+}
+
+impl<T> DerefMut for RwLockWriteGuard<'_, T> {
+    fn deref_mut(&mut self) -> &mut T {
+        &mut self.inner
+    }
+}
+
+fn release(id: u64, mode: u8, write: bool, loc: &'static Location<'static>, real_release: impl FnOnce()) {
+    match mode {
+        0 => real_release(),
+        1 => {
+            real_release();
+            held_remove(id, write);
+            log_event(
+                id,
+                if write {
+                    LockEventKind::ReleaseWrite
+                } else {
+                    LockEventKind::ReleaseRead
+                },
+                loc,
+            );
+        }
+        _ => {
+            // scheduling point first; the lock is given up when this thread is chosen again
+            sched_release(id, write, loc);
+            real_release();
+            held_remove(id, write);
+        }
+    }
+}
+
+impl<T> Drop for RwLockReadGuard<'_, T> {
+    fn drop(&mut self) {
+        let inner = &mut self.inner;
+        // SAFETY: the inner guard is dropped exactly once, here
+        release(self.id, self.mode, false, self.loc, || unsafe {
+            ManuallyDrop::drop(inner)
+        });
+    }
+}
+
+impl<T> Drop for RwLockWriteGuard<'_, T> {
+    fn drop(&mut self) {
+        let inner = &mut self.inner;
+        // SAFETY: the inner guard is dropped exactly once, here
+        release(self.id, self.mode, true, self.loc, || unsafe {
+            ManuallyDrop::drop(inner)
+        });
+    }
+}
+
+// lock ids of the public handle types, so that a harness can name the objects behind the ids
+impl crate::AutosarModel {
+    #[doc(hidden)]
+    pub fn verif_lock_id(&self) -> u64 {
+        self.0.verif_lock_id()
+    }
+}
+
+impl crate::ArxmlFile {
+    #[doc(hidden)]
+    pub fn verif_lock_id(&self) -> u64 {
+        self.0.verif_lock_id()
+    }
+}
+
+impl crate::Element {
+    #[doc(hidden)]
+    pub fn verif_lock_id(&self) -> u64 {
+        self.0.verif_lock_id()
+    }
+}
+
+// ------------------------------------------------------------------------------------------------
+// mode 2: the cooperative scheduler
+// ------------------------------------------------------------------------------------------------
+
+#[derive(Clone, Copy)]
+enum Pending {
+    /// the thread is running (holds the baton) or has finished
+    None,
+    Start,
+    Acquire {
+        lock: u64,
+        write: bool,
+        loc: &'static Location<'static>,
+    },
+    Try {
+        lock: u64,
+        write: bool,
+        loc: &'static Location<'static>,
+    },
+    Release {
+        lock: u64,
+        write: bool,
+        loc: &'static Location<'static>,
+    },
+}
+
+struct ThreadState {
+    pending: Pending,
+    /// outcome of the last Try
+    granted: bool,
+    finished: bool,
+    panicked: bool,
+    /// deadlock victim: panics at its blocked acquisition, no longer takes part in scheduling
+    kill: bool,
+}
+
+#[derive(Default)]
+struct LockState {
+    writer: Option<(usize, &'static Location<'static>)>,
+    readers: Vec<(usize, &'static Location<'static>)>,
+}
+
+struct Sched {
+    schedule: Vec<usize>,
+    pos: usize,
+    stay_on_thread: bool,
+    current: Option<usize>,
+    last: Option<usize>,
+    threads: Vec<ThreadState>,
+    locks: HashMap<u64, LockState>,
+    trace: Vec<(usize, LockEvent)>,
+    enabled: Vec<Vec<usize>>,
+    deadlock: Option<DeadlockReport>,
+    progress: u64,
+}
+
+impl Sched {
+    fn lock_free_for_write(&self, lock: u64) -> bool {
+        self.locks
+            .get(&lock)
+            .is_none_or(|l| l.writer.is_none() && l.readers.is_empty())
+    }
+
+    /// a thread whose blocking write on this lock cannot be granted at the moment
+    fn waiting_writer(&self, lock: u64, except: usize) -> Option<usize> {
+        if self.lock_free_for_write(lock) {
+            return None;
+        }
+        self.threads.iter().enumerate().position(|(t, th)| {
+            t != except
+                && !th.finished
+                && matches!(th.pending, Pending::Acquire { lock: l, write: true, .. } if l == lock)
+        })
+    }
+
+    fn lock_free_for_read(&self, lock: u64, thread: usize) -> bool {
+        self.locks.get(&lock).is_none_or(|l| l.writer.is_none()) && self.waiting_writer(lock, thread).is_none()
+    }
+
+    fn is_enabled(&self, t: usize) -> bool {
+        let th = &self.threads[t];
+        if th.finished || th.kill {
+            return false;
+        }
+        match th.pending {
+            Pending::None => false,
+            Pending::Start | Pending::Try { .. } | Pending::Release { .. } => true,
+            Pending::Acquire { lock, write: true, .. } => self.lock_free_for_write(lock),
+            Pending::Acquire { lock, write: false, .. } => self.lock_free_for_read(lock, t),
+        }
+    }
+
+    fn event(t: usize, lock: u64, kind: LockEventKind, loc: &'static Location<'static>) -> LockEvent {
+        LockEvent {
+            thread: t as u64,
+            lock,
+            kind,
+            file: loc.file(),
+            line: loc.line(),
+        }
+    }
+
+    fn remove_holder(&mut self, t: usize, lock: u64, write: bool) {
+        if let Some(l) = self.locks.get_mut(&lock) {
+            if write {
+                if l.writer.is_some_and(|(w, _)| w == t) {
+                    l.writer = None;
+                }
+            } else if let Some(p) = l.readers.iter().rposition(|(r, _)| *r == t) {
+                l.readers.remove(p);
+            }
+            if l.writer.is_none() && l.readers.is_empty() {
+                self.locks.remove(&lock);
+            }
+        }
+    }
+
+    /// perform the pending event of thread t in the lock model and record it
+    fn apply(&mut self, t: usize, here: &'static Location<'static>) {
+        let pending = std::mem::replace(&mut self.threads[t].pending, Pending::None);
+        let ev = match pending {
+            Pending::None => return,
+            Pending::Start => Self::event(t, 0, LockEventKind::Start, here),
+            Pending::Acquire { lock, write, loc } => {
+                let l = self.locks.entry(lock).or_default();
+                if write {
+                    l.writer = Some((t, loc));
+                    Self::event(t, lock, LockEventKind::Write, loc)
+                } else {
+                    l.readers.push((t, loc));
+                    Self::event(t, lock, LockEventKind::Read, loc)
+                }
+            }
+            Pending::Try { lock, write, loc } => {
+                let ok = if write {
+                    self.lock_free_for_write(lock)
+                } else {
+                    self.lock_free_for_read(lock, t)
+                };
+                self.threads[t].granted = ok;
+                if ok {
+                    let l = self.locks.entry(lock).or_default();
+                    if write {
+                        l.writer = Some((t, loc));
+                        Self::event(t, lock, LockEventKind::TryWrite, loc)
+                    } else {
+                        l.readers.push((t, loc));
+                        Self::event(t, lock, LockEventKind::TryRead, loc)
+                    }
+                } else {
+                    Self::event(t, lock, LockEventKind::TryFail, loc)
+                }
+            }
+            Pending::Release { lock, write, loc } => {
+                self.remove_holder(t, lock, write);
+                let kind = if write {
+                    LockEventKind::ReleaseWrite
+                } else {
+                    LockEventKind::ReleaseRead
+                };
+                Self::event(t, lock, kind, loc)
+            }
+        };
+        self.trace.push((t, ev));
+    }
+
+    fn deadlock_report(&self) -> DeadlockReport {
+        let mut waits = vec![];
+        for (t, th) in self.threads.iter().enumerate() {
+            if th.finished {
+                continue;
+            }
+            if let Pending::Acquire { lock, write, loc } = th.pending {
+                let mut holders = vec![];
+                if let Some(l) = self.locks.get(&lock) {
+                    if let Some((w, wl)) = l.writer {
+                        holders.push(LockHolder {
+                            thread: w,
+                            write: true,
+                            file: wl.file(),
+                            line: wl.line(),
+                        });
+                    }
+                    for (r, rl) in &l.readers {
+                        holders.push(LockHolder {
+                            thread: *r,
+                            write: false,
+                            file: rl.file(),
+                            line: rl.line(),
+                        });
+                    }
+                }
+                let behind_waiting_writer = if write { None } else { self.waiting_writer(lock, t) };
+                waits.push(DeadlockWait {
+                    thread: t,
+                    lock,
+                    write,
+                    file: loc.file(),
+                    line: loc.line(),
+                    holders,
+                    behind_waiting_writer,
+                });
+            }
+        }
+        DeadlockReport {
+            waits,
+            at_step: self.trace.len(),
+        }
+    }
+
+    /// choose the thread that runs next and hand over the baton
+    fn dispatch(&mut self) {
+        self.progress += 1;
+        let n = self.threads.len();
+        // deadlock victims unwind one after the other
+        if let Some(t) = (0..n).find(|t| self.threads[*t].kill && !self.threads[*t].finished) {
+            self.current = Some(t);
+            return;
+        }
+        let runnable: Vec<usize> = (0..n).filter(|t| self.is_enabled(*t)).collect();
+        if runnable.is_empty() {
+            if self.threads.iter().all(|th| th.finished) {
+                self.current = None;
+                return;
+            }
+            // deadlock: nobody can run, somebody has not finished
+            if self.deadlock.is_none() {
+                self.deadlock = Some(self.deadlock_report());
+            }
+            for th in self.threads.iter_mut() {
+                if !th.finished {
+                    th.kill = true;
+                }
+            }
+            self.current = (0..n).find(|t| !self.threads[*t].finished);
+            return;
+        }
+        let mut choice = None;
+        if self.pos < self.schedule.len() {
+            let c = self.schedule[self.pos];
+            self.pos += 1;
+            if runnable.contains(&c) {
+                choice = Some(c);
+            }
+        }
+        let t = choice.unwrap_or_else(|| match self.last {
+            Some(l) if self.stay_on_thread && runnable.contains(&l) => l,
+            _ => runnable[0],
+        });
+        self.enabled.push(runnable);
+        self.apply(t, Location::caller());
+        self.current = Some(t);
+        self.last = Some(t);
+    }
+}
+
+/// wait until this thread holds the baton; returns false if the scheduler is gone
+fn wait_for_baton(mut g: MutexGuard<'static, Option<Sched>>, tid: usize) -> (MutexGuard<'static, Option<Sched>>, bool) {
+    loop {
+        match g.as_ref() {
+            None => return (g, false),
+            Some(s) if s.current == Some(tid) => return (g, true),
+            Some(_) => {}
+        }
+        g = SCHED_CV.wait(g).unwrap_or_else(|e| e.into_inner());
+    }
+}
+
+/// a scheduling point before an acquisition; returns whether a try-acquisition was granted (true for blocking ones)
+fn sched_point(p: Pending) -> bool {
+    let tid = SCHED_TID
+        .with(Cell::get)
+        .expect("verif: scheduling point on an unregistered thread");
+    let mut g = lock_ignore_poison(&SCHED);
+    let victim = match g.as_mut() {
+        None => true,
+        Some(s) => {
+            if s.threads[tid].kill {
+                true
+            } else {
+                s.threads[tid].pending = p;
+                s.dispatch();
+                SCHED_CV.notify_all();
+                let (g2, alive) = wait_for_baton(g, tid);
+                g = g2;
+                let s = g.as_mut();
+                !alive || s.is_none_or(|s| s.threads[tid].kill)
+            }
+        }
+    };
+    if victim {
+        drop(g);
+        panic!("verif: deadlock victim (blocked lock acquisition aborted by the scheduler)");
+    }
+    let s = g.as_mut().unwrap();
+    match p {
+        Pending::Try { .. } => s.threads[tid].granted,
+        _ => true,
+    }
+}
+
+/// a scheduling point before a release. Never panics (it runs inside drop, possibly while unwinding)
+fn sched_release(lock: u64, write: bool, loc: &'static Location<'static>) {
+    let Some(tid) = SCHED_TID.with(Cell::get) else { return };
+    let mut g = lock_ignore_poison(&SCHED);
+    let Some(s) = g.as_mut() else { return };
+    if s.threads[tid].kill || std::thread::panicking() {
+        // unwinding: give up the lock in the model without offering a scheduling decision
+        s.remove_holder(tid, lock, write);
+        let kind = if write {
+            LockEventKind::ReleaseWrite
+        } else {
+            LockEventKind::ReleaseRead
+        };
+        s.trace.push((tid, Sched::event(tid, lock, kind, loc)));
+        s.enabled.push(vec![]);
+        return;
+    }
+    s.threads[tid].pending = Pending::Release { lock, write, loc };
+    s.dispatch();
+    SCHED_CV.notify_all();
+    let (mut g, alive) = wait_for_baton(g, tid);
+    if alive {
+        if let Some(s) = g.as_mut() {
+            if s.threads[tid].kill {
+                // became a victim while waiting to release (cannot happen: a release is always enabled); stay consistent
+                s.remove_holder(tid, lock, write);
+            }
+        }
+    }
+}
+
+fn sched_note_self_deadlock(lock: u64, loc: &'static Location<'static>) {
+    let Some(tid) = SCHED_TID.with(Cell::get) else { return };
+    let mut g = lock_ignore_poison(&SCHED);
+    if let Some(s) = g.as_mut() {
+        s.trace
+            .push((tid, Sched::event(tid, lock, LockEventKind::SelfDeadlock, loc)));
+        s.enabled.push(vec![]);
+    }
+}
+
+fn sched_thread_main(tid: usize, body: Box<dyn FnOnce() + Send>) {
+    SCHED_TID.with(|c| c.set(Some(tid)));
+    HELD.with(|h| h.borrow_mut().clear());
+    let started = {
+        let mut g = lock_ignore_poison(&SCHED);
+        if let Some(s) = g.as_mut() {
+            s.threads[tid].pending = Pending::Start;
+            s.progress += 1;
+        }
+        SCHED_CV.notify_all();
+        let (_g, alive) = wait_for_baton(g, tid);
+        alive
+    };
+    let panicked = if started {
+        std::panic::catch_unwind(std::panic::AssertUnwindSafe(body)).is_err()
+    } else {
+        true
+    };
+    let mut g = lock_ignore_poison(&SCHED);
+    if let Some(s) = g.as_mut() {
+        s.threads[tid].finished = true;
+        s.threads[tid].panicked = panicked;
+        s.threads[tid].pending = Pending::None;
+        // whatever the thread still holds in the model is gone now (guards were dropped during unwinding or leaked)
+        let held: Vec<u64> = s.locks.keys().copied().collect();
+        for l in held {
+            s.remove_holder(tid, l, true);
+            while s
+                .locks
+                .get(&l)
+                .is_some_and(|ls| ls.readers.iter().any(|(r, _)| *r == tid))
+            {
+                s.remove_holder(tid, l, false);
+            }
+        }
+        s.dispatch();
+    }
+    SCHED_CV.notify_all();
+    drop(g);
+    SCHED_TID.with(|c| c.set(None));
+}
+
+/// Run the bodies as threads under the deterministic scheduler (mode 2 is switched on for the duration of the call).
+///
+/// `schedule[i]` is the thread that performs the i-th step if it is runnable; otherwise, and after the schedule is
+/// exhausted, the lowest runnable thread is chosen.
+#[doc(hidden)]
+pub fn verif_sched_run(schedule: Vec<usize>, bodies: Vec<Box<dyn FnOnce() + Send>>) -> SchedOutcome {
+    verif_sched_run_opts(schedule, bodies, false)
+}
+
+/// Like [`verif_sched_run`]; with `stay_on_thread` the fallback choice is the thread that ran last, if it is runnable
+/// (a schedule prefix followed by a continuation without preemptions).
+#[doc(hidden)]
+pub fn verif_sched_run_opts(
+    schedule: Vec<usize>,
+    bodies: Vec<Box<dyn FnOnce() + Send>>,
+    stay_on_thread: bool,
+) -> SchedOutcome {
+    let _serial = lock_ignore_poison(&SCHED_RUN);
+    let n = bodies.len();
+    let old_mode = MODE.swap(2, Ordering::SeqCst);
+    {
+        let mut g = lock_ignore_poison(&SCHED);
+        *g = Some(Sched {
+            schedule,
+            pos: 0,
+            stay_on_thread,
+            current: None,
+            last: None,
+            threads: (0..n)
+                .map(|_| ThreadState {
+                    pending: Pending::None,
+                    granted: false,
+                    finished: false,
+                    panicked: false,
+                    kill: false,
+                })
+                .collect(),
+            locks: HashMap::new(),
+            trace: vec![],
+            enabled: vec![],
+            deadlock: None,
+            progress: 0,
+        });
+    }
+    let mut handles = vec![];
+    for (tid, body) in bodies.into_iter().enumerate() {
+        let h = std::thread::Builder::new()
+            .name(format!("verif-sched-{tid}"))
+            .stack_size(16 << 20)
+            .spawn(move || sched_thread_main(tid, body))
+            .expect("verif: cannot spawn thread");
+        handles.push(h);
+    }
+    let mut stuck = false;
+    {
+        let mut g = lock_ignore_poison(&SCHED);
+        // wait until every thread has announced itself, then make the first decision
+        loop {
+            let s = g.as_ref().unwrap();
+            if s.threads.iter().all(|t| matches!(t.pending, Pending::Start)) {
+                break;
+            }
+            g = SCHED_CV.wait(g).unwrap_or_else(|e| e.into_inner());
+        }
+        if n > 0 {
+            g.as_mut().unwrap().dispatch();
+            SCHED_CV.notify_all();
+        }
+        // wait for the end, watching for progress
+        let mut last_progress = g.as_ref().unwrap().progress;
+        let mut idle = 0;
+        loop {
+            let s = g.as_ref().unwrap();
+            if s.threads.iter().all(|t| t.finished) {
+                break;
+            }
+            let (g2, to) = SCHED_CV
+                .wait_timeout(g, Duration::from_millis(500))
+                .unwrap_or_else(|e| e.into_inner());
+            g = g2;
+            let p = g.as_ref().unwrap().progress;
+            if to.timed_out() && p == last_progress {
+                idle += 1;
+                if idle >= 20 {
+                    stuck = true;
+                    break;
+                }
+            } else {
+                idle = 0;
+                last_progress = p;
+            }
+        }
+    }
+    let s = {
+        let mut g = lock_ignore_poison(&SCHED);
+        let s = g.take().unwrap();
+        SCHED_CV.notify_all();
+        s
+    };
+    if !stuck {
+        for h in handles {
+            let _ = h.join();
+        }
+    }
+    MODE.store(old_mode, Ordering::SeqCst);
+    SchedOutcome {
+        finished: s.threads.iter().map(|t| t.finished).collect(),
+        panicked: s.threads.iter().map(|t| t.panicked).collect(),
+        trace: s.trace,
+        enabled: s.enabled,
+        deadlock: s.deadlock,
+        stuck,
+    }
+}
